@@ -41,7 +41,8 @@ def build(seed: int):
     if seed % 3 == 0:
         base = (vlib.REPO / "test/resources/test-chkjson-scx.chk").read_bytes()
     else:
-        base = SC.MapGen(random.Random(seed * 7 + 1), "editor", nloc=255, all_sections=(seed % 2 == 0)).build()
+        base = SC.MapGen(random.Random(seed * 7 + 1), "editor", nloc=255, all_sections=(seed % 2 == 0),
+                         shuffle_order=(seed % 4 in (1, 2))).build()
     dup_name = None
     if seed % 2 == 1:
         # two (three) of the map's own switches share one name - legal, and what "resolve a by-name reference to the
